@@ -345,6 +345,49 @@ def rule_p1(ctx, F):
         ctx.before("P1", "ts_subtree_edit:write-back-after-make_mut", fn, wb, mk, "the write-back stores the make_mut result")
 
 
+def rule_p2(ctx, F):
+    """A clone owns its own copy of everything the release path frees per node: whatever
+    ts_subtree_release deletes through a field of the node (`X_delete(&tree.ptr->f)`) must be
+    duplicated by ts_subtree_clone (`result->f = X_copy(..)`), and every child the release path
+    drops a reference to must be retained by the clone."""
+    rel = ctx.need_fn(F, "ts_subtree_release", "P2")
+    clone = ctx.need_fn(F, "ts_subtree_clone", "P2")
+    if not rel or not clone:
+        return
+    owned = []
+    for pt, c in rel.calls():
+        name = c.get("fn") or ""
+        if name.endswith("_delete") and c.get("a"):
+            a = strip(c["a"][0])
+            if a.get("k") == "un" and a["op"] == "&" and strip(a["e"]).get("k") == "mem":
+                owned.append((strip(a["e"])["f"], name))
+    ctx.floor("node-owned resources freed by ts_subtree_release", len(owned), 1)
+    for fld, dele in owned:
+        copy = dele[:-len("_delete")] + "_copy"
+        key = "ts_subtree_clone:duplicates-" + fld
+        if copy not in F.fns:
+            ctx.bad("P2", key, "no `%s` counterpart of `%s` found" % (copy, dele))
+            continue
+        pts = []
+        for pt, e in clone.points():
+            for n in own_walk(e):
+                if n.get("k") == "assign" and strip(n["l"]).get("k") == "mem" and strip(n["l"])["f"] == fld and strip(n["r"]).get("k") == "call" and callee_name(strip(n["r"])) == copy:
+                    pts.append(pt)
+        if not pts:
+            ctx.bad("P2", key, "ts_subtree_clone no longer duplicates `%s` with %s although ts_subtree_release frees it with %s: a clone and its original then share (and both free) the same block" % (fld, copy, dele),
+                    {"function": "ts_subtree_clone", "freed_by": dele})
+            continue
+        selfv = clone.params[0]["name"] if clone.params else "self"
+        ctx.established_at_exit("P2", key, clone, pts, [("%s.ptr->has_external_tokens" % selfv, False), ("%s.ptr->child_count > 0" % selfv, True)],
+                                "the clone gets its own %s (%s) whenever the node is a leaf that has one" % (fld, copy))
+    # children: release drops one reference per child, clone must take one per child
+    ret = [pt for pt, n in find(clone, "ts_subtree_retain(_[_])")]
+    if ret:
+        ctx.ok("P2", "ts_subtree_clone:retains-children", "the clone retains each child it now also points to", sample={"site": clone.loc(ret[0])})
+    else:
+        ctx.bad("P2", "ts_subtree_clone:retains-children", "ts_subtree_clone no longer retains the children it copies")
+
+
 EXPECTED_WITNESSES = ["W1EditWhileNodeBorrowed", "W2EditWhileCursorBorrowed", "W3EditNeedsMut", "W4ParseNeedsMut", "W5NodeOutlivesTree",
                       "W6DropWhileNodeBorrowed", "W7OneStreamPerCursor"]
 
@@ -379,6 +422,7 @@ def run(ctx):
         rule_writers(ctx, F, w)
         rule_w3(ctx, F, w)
         rule_p1(ctx, F)
+    rule_p2(ctx, F)
     rule_t1(ctx)
     return ctx.finish(
         "Who-may-write and gate rules over the Clang-resolved C runtime: ref_count is only touched by atomics (or set to 1 on fresh nodes); "
